@@ -353,3 +353,60 @@ def _insert_logging(tree):
 
 for _m in ("SimpleJSONRPCServer", "jsonrpc", "threadpool"):
     VARIANTS.append(A("S91-debug-log-at-function-entry-%s" % _m, "silent", ALL_PROPS, _m, _insert_logging))
+
+
+def extract_fault_helper(tree):
+    """validate_request builds its -32600 faults through a module-level helper"""
+    f = _find_func(tree, None, "validate_request")
+    n = 0
+
+    class T(ast.NodeTransformer):
+        def visit_Call(self, node):
+            nonlocal n
+            self.generic_visit(node)
+            if ast.unparse(node.func) == "Fault" and node.args and ast.unparse(node.args[0]) == "-32600":
+                kw = dict((k.arg, k.value) for k in node.keywords)
+                n += 1
+                return ast.Call(func=ast.Name(id="_invalid_request", ctx=ast.Load()),
+                                args=[node.args[1], kw.get("rpcid", ast.Constant(None)), kw["config"]], keywords=[])
+            return node
+    T().visit(f)
+    if not n:
+        return None
+    helper = ast.parse(
+        "def _invalid_request(message, rpcid, config):\n"
+        "    return Fault(-32600, message, rpcid=rpcid, config=config)\n").body[0]
+    idx = tree.body.index(f)
+    tree.body.insert(idx, helper)
+    return tree
+
+
+VARIANTS.append(A("S31-fault-construction-in-a-helper", "silent", ["C02", "C03", "C05", "C13"], "SimpleJSONRPCServer", extract_fault_helper))
+
+
+def adapter_in_helper(tree):
+    """the per-request configuration is computed by a module-level helper used by both functions"""
+    helper = ast.parse(
+        "def get_request_config(request, json_config):\n"
+        "    if 'jsonrpc' not in request and json_config.version >= 2:\n"
+        "        config = json_config.copy()\n"
+        "        config.version = 1.0\n"
+        "        return config\n"
+        "    return json_config\n").body[0]
+    v = _find_func(tree, None, "validate_request")
+    s = _find_func(tree, "SimpleJSONRPCDispatcher", "_marshaled_single_dispatch")
+    done = 0
+    for f, cfgname, target in ((v, "json_config", "json_config"), (s, "self.json_config", "config")):
+        req = "request"
+        for i, st in enumerate(f.body):
+            if isinstance(st, ast.If) and "'jsonrpc' not in request" in ast.unparse(st.test):
+                f.body[i] = ast.parse("%s = get_request_config(request, %s)" % (target, cfgname)).body[0]
+                done += 1
+                break
+    if done != 2:
+        return None
+    tree.body.insert(tree.body.index(v), helper)
+    return tree
+
+
+VARIANTS.append(A("S32-request-config-adapter-in-a-helper", "silent", ["C13", "C02", "C03", "C05", "C12", "C01", "C04"], "SimpleJSONRPCServer", adapter_in_helper))
